@@ -118,7 +118,32 @@ _poll_dispatch_and_take_back_(struct qb_loop_item *item,
 		if (pe->ufd.fd >= 0 && pe->state != QB_POLL_ENTRY_DELETED) {
 			struct qb_poll_source *s =
 			    (struct qb_poll_source *)pe->item.source;
-			(void)s->driver.del(s, pe, pe->ufd.fd, pe->install_pos);
+			struct qb_poll_entry *other;
+			int32_t reused = QB_FALSE;
+			int32_t i;
+
+			/*
+			 * unless the callback closed the descriptor and has
+			 * already registered a new one that got the same
+			 * number: that one must stay in the poll set
+			 */
+			for (i = 0; i < s->poll_entry_count; i++) {
+				if (qb_array_index(s->poll_entries, i,
+						   (void **)&other) != 0) {
+					break;
+				}
+				if (other != pe &&
+				    other->ufd.fd == pe->ufd.fd &&
+				    (other->state == QB_POLL_ENTRY_ACTIVE ||
+				     other->state == QB_POLL_ENTRY_JOBLIST)) {
+					reused = QB_TRUE;
+					break;
+				}
+			}
+			if (!reused) {
+				(void)s->driver.del(s, pe, pe->ufd.fd,
+						    pe->install_pos);
+			}
 		}
 		_poll_entry_mark_deleted_(pe);
 	} else if (pe->state != QB_POLL_ENTRY_DELETED) {
